@@ -328,7 +328,8 @@ def shrink(suite, bad, kind, proj_model, proj_spec, seqdiff, workdir, budget=150
     if not fails(ops):
         return bad  # depends on the suffix (should not happen) — keep the original
     n = 2
-    while len(ops) >= 2 and budget > 0:
+    t_end = time.time() + 90      # slow replays (a hanging call costs seconds each): bounded minimisation
+    while len(ops) >= 2 and budget > 0 and time.time() < t_end:
         chunk = max(1, len(ops) // n)
         reduced = False
         for start in range(0, len(ops), chunk):
@@ -337,7 +338,7 @@ def shrink(suite, bad, kind, proj_model, proj_spec, seqdiff, workdir, budget=150
             if cand and fails(cand):
                 ops = cand; n = max(n - 1, 2); reduced = True
                 break
-            if budget <= 0: break
+            if budget <= 0 or time.time() > t_end: break
         if not reduced:
             if chunk == 1: break
             n = min(n * 2, len(ops))
@@ -412,7 +413,7 @@ def localize_crash(suite, seed, ncases, workdir, seqdiff, replay=None):
             budget -= 1
             if cand and crashes(header, cand)[0]:
                 ops = cand; n = max(n - 1, 2); reduced = True; break
-            if budget <= 0: break
+            if budget <= 0 or time.time() > t_end: break
         if not reduced:
             if chunk == 1: break
             n = min(n * 2, len(ops))
